@@ -31,6 +31,10 @@ def main():
     if gate:
         proof["ok"] = False
         proof["gate"] = gate
+    tf = core.translator_failure(pid)
+    if tf:
+        proof["ok"] = False
+        proof["log"] = tf + "\n" + str(proof.get("log", ""))
     try:
         res = mod.run(ctx)
     except Exception:
